@@ -22,6 +22,13 @@
 #include <unistd.h>
 #include <unordered_set>
 
+#ifdef SIM_COVERAGE
+extern "C" int __llvm_profile_write_file(void);
+#define SIM_FLUSH_COVERAGE() __llvm_profile_write_file()
+#else
+#define SIM_FLUSH_COVERAGE() ((void)0)
+#endif
+
 namespace sim {
 
 void resetDirOrdinal();
@@ -256,6 +263,7 @@ static bool itemAt(const std::vector<uint64_t>& counts, uint64_t k, Item& out) {
 	fprintf(out, "D\n");
 	fflush(out);
 	disk::removeScratch();
+	SIM_FLUSH_COVERAGE();
 	_exit(0);
 }
 
